@@ -84,6 +84,8 @@ async fn run_scenario(sc: Value, agent: String, acceptor: tokio_rustls::TlsAccep
         let irr_mode = run["irr_mode"].as_str().unwrap_or("ok");
         let irrd = start_irrd(IrrDb::from_json(&run["irr"]), irr_mode);
         let junos = start_junos(run["running"].clone(), eph.clone(), faults_of(&run["faults"]), acceptor.clone(), case.clone(), style).await;
+        // a router that implements NETCONF 1.1 as well (chunked framing with a client that advertises it too)
+        junos.state.lock().unwrap().caps11 = sc["caps11"].as_bool().unwrap_or(false);
         emit(&mut out, json!({"ev": "run_start", "run": k + 1, "running": run["running"], "eph": eph_to_json(&eph),
                               "den": den_map(eph_filters(&eph)), "repeat": run["repeat"].as_bool().unwrap_or(false),
                               "expect": run["expect"], "irr_mode": irr_mode, "faults": run["faults"],
@@ -180,6 +182,7 @@ async fn run_daemon_scenario(sc: Value, agent: String, acceptor: tokio_rustls::T
         g.refuse = run["router"].as_str() == Some("unreachable");
     };
     let junos = start_junos(run_of(1)["running"].clone(), eph0.clone(), vec![], acceptor.clone(), case.clone(), None).await;
+    junos.state.lock().unwrap().caps11 = sc["caps11"].as_bool().unwrap_or(false);
     set_inputs(1, &junos, &irrd);
     let mut cmd = tokio::process::Command::new(&agent);
     cmd.args(["-f", &period.to_string(), "--irrd-host", "127.0.0.1", "--irrd-port", &irrd.addr.port().to_string(), "--ephemeral-db", &inst,
